@@ -288,6 +288,9 @@ def run(tier, seed, t0):
     acc = runner.Acc()
     for a in accs:
         acc.merge(a)
+    # experimental-syntax clause: sugared vs documented desugaring on the experimental-feature build
+    from . import c01x
+    c01x.run_part(acc, tier, seed)
     return runner.finish(
         PROP, tier, seed, "exploration", acc, t0,
         rule="(i) exhaustive tables: every binary operator x ordered pair of 18 operand kinds, unary x kind, "
@@ -296,7 +299,11 @@ def run(tier, seed, t0):
              "minimal parentheses; each under both parsers and both parenthesisations; (ii) random type-directed "
              "programs (depth <= 5, <= ~70 nodes, 5% ill-typed, 3% planted errors, bombs in unneeded positions) "
              "x {default, legacy} parser x {minimal, full} parentheses x embedding in {snippet, imported file, "
-             "import expression, ext-code variable, TLA function body}. distinct_nontrivial = distinct programs / "
+             "import expression, ext-code variable, TLA function body}; (iii) experimental syntax (destructuring of "
+             "objects / arrays with rest, defaults, skips, nesting, in parameters and comprehensions; iteration over "
+             "objects; ?? and ?.): ~1000 pairs (program with the sugar, program with the documented desugaring) over "
+             "operand pools with lazily failing, hidden and null members, on a build with the experimental features; "
+             "the desugared program also on the standard build. distinct_nontrivial = distinct programs / "
              "table cells on which every variant agreed with the reference evaluator",
         assumptions=["mon/ref/interp.py implements the Jsonnet specification; it abstains where the documentation "
                      "does not fix the outcome (string conversion of containers, number spelling with exponents, "
@@ -307,6 +314,9 @@ def run(tier, seed, t0):
 
 def replay(path):
     w = json.load(open(path))["witness"]
+    if "sugared" in w:
+        from . import c01x
+        return c01x.replay_pair(w)
     cfg = w.get("config", {})
     env = {"JRSONNET_LEGACY_PARSER": "1"} if cfg.get("parser") == "legacy" else None
     wk = runner.Worker(runner.build("rel")["jv-worker"], env=env)
